@@ -139,15 +139,47 @@ Theorem C14_bitfield_update_spec : forall w s e nv tr r,
 Proof. exact bitfield_update_spec. Qed.
 Print Assumptions C14_bitfield_update_spec.
 
+(* Python int new value of either sign: the field receives the two's complement of v AT THE FIELD
+   WIDTH (bit j of the field = bit j of v, so a negative value sign-fills the field); without
+   truncating it must fit in [-2^(m-1), 2^m) *)
 Theorem C14_bitfield_update_int_spec : forall w s e v tr r,
   bitfield_update_int w s e v tr = Some r ->
   let idx := pyslice (seq 0 (length w)) s e in
   idx <> [] /\ length r = length w /\
-  (0 <= v < 2 ^ Z.of_nat (length idx) \/ tr = true) /\
+  (tr = true \/ - 2 ^ (Z.of_nat (length idx) - 1) <= v < 2 ^ Z.of_nat (length idx)) /\
   (forall j, (j < length idx)%nat -> nth (nth j idx 0%nat) r false = Z.testbit v (Z.of_nat j)) /\
   (forall i, ~ In i idx -> nth i r false = nth i w false).
 Proof. exact bitfield_update_int_spec. Qed.
 Print Assumptions C14_bitfield_update_int_spec.
+
+(* an int that converts acts exactly as the wire holding its field-width two's complement bits
+   (so every wire-valued theorem, incl. the set theorems, applies to int entries through this) *)
+Theorem C14_bitfield_update_int_as_wire : forall w s e v tr,
+  bitfield_update_int w s e v tr =
+  match conv_int v tr (length (pyslice (seq 0 (length w)) s e)) with
+  | Some b => bitfield_update w s e b false
+  | None => None
+  end.
+Proof. exact bitfield_update_int_as_wire. Qed.
+Print Assumptions C14_bitfield_update_int_as_wire.
+
+Theorem C14_bitfield_update_set_nv_wires : forall w ups tr,
+  bitfield_update_set_nv w (map (fun u => (fst u, NVw (snd u))) ups) tr = bitfield_update_set w ups tr.
+Proof. exact bitfield_update_set_nv_wires. Qed.
+Print Assumptions C14_bitfield_update_set_nv_wires.
+
+Theorem C14_bitfield_update_set_nv_int_step : forall w sl s e v tr rest,
+  bfus_rec_nv w sl (((s, e), NVi v) :: rest) tr =
+  if existsb (fun b : bool => b) (pyslice sl s e) then None else
+  match conv_int v tr (length (pyslice (seq 0 (length w)) s e)) with
+  | None => None
+  | Some b => match bitfield_update w s e b false with
+              | None => None
+              | Some w' => bfus_rec_nv w' (set_slice sl s e) rest tr
+              end
+  end.
+Proof. exact bitfield_update_set_nv_int_step. Qed.
+Print Assumptions C14_bitfield_update_set_nv_int_step.
 
 (* the addressed indices form the contiguous run [a, b) given by the slice bounds *)
 Theorem C14_slice_indices : forall n s e,
@@ -236,6 +268,28 @@ Theorem C14_match_bitpattern_strip : forall w pat,
   match_bitpattern w pat = match_bits w (strip (list_ascii_of_string pat)).
 Proof. exact match_bitpattern_unfold. Qed.
 Print Assumptions C14_match_bitpattern_strip.
+
+(* field_map: the match bit and the fields (positionally, in the order their letters first appear in the
+   pattern) are those of the call without a map, only the names are replaced; the order in which the
+   map's keys are written plays no role; it raises exactly when a field letter is not a key *)
+Theorem C14_match_bitpattern_field_map : forall w ns fm m l,
+  match_bits_fm w ns fm = Some (m, l) ->
+  exists fs, match_bits w ns = Some (m, fs) /\
+             map snd l = map snd fs /\
+             map (fun cf => fm_lookup fm (fst cf)) fs = map (fun nl => Some (fst nl)) l.
+Proof. exact match_bits_fm_spec. Qed.
+Print Assumptions C14_match_bitpattern_field_map.
+
+Theorem C14_match_bitpattern_field_map_order : forall w ns fm fm',
+  NoDup (map fst fm) -> Permutation fm fm' -> match_bits_fm w ns fm = match_bits_fm w ns fm'.
+Proof. exact match_bits_fm_perm. Qed.
+Print Assumptions C14_match_bitpattern_field_map_order.
+
+Theorem C14_match_bitpattern_field_map_raises : forall w ns fm,
+  match_bits_fm w ns fm = None <->
+  length w <> length ns \/ exists c, In c ns /\ is_field c = true /\ ~ In c (map fst fm).
+Proof. exact match_bits_fm_raises. Qed.
+Print Assumptions C14_match_bitpattern_field_map_raises.
 
 (* ================= chop / partition_wire ================= *)
 Theorem C14_chop_spec : forall w ws ps, chop w ws = Some ps ->
@@ -443,13 +497,22 @@ Example C14_example_bitfield :
   bitfield_update_set (of_Z 8 0) [((Some 3, Some 5), [true; true]); ((Some 1, Some 8), of_Z 7 0)] false = None /\
   bitfield_update_set (of_Z 6 0) [((Some (-4), Some (-2)), [true; true]); ((Some 2, None), of_Z 4 0)] false = None /\
   option_map to_Z (bitfield_update_int (of_Z 4 0) (Some 0) (Some 2) 7 true) = Some 3 /\
+  (* negative ints are sign-filled to the field width; -3 in 8 bits is 0xFD *)
+  option_map to_Z (bitfield_update_int (of_Z 12 0) (Some 4) (Some 12) (-3) true) = Some (253 * 16) /\
+  option_map to_Z (bitfield_update_int (of_Z 12 0) (Some 4) (Some 12) (-3) false) = Some (253 * 16) /\
+  bitfield_update_int (of_Z 4 0) (Some 0) (Some 2) (-3) false = None /\
+  option_map to_Z (bitfield_update_set_nv (of_Z 8 0) [((Some 0, Some 2), NVi (-1)); ((Some 4, Some 8), NVi (-3))] true)
+    = Some 211 /\
   bitfield_update_int (of_Z 4 0) (Some 0) (Some 2) 7 false = None.
 Proof. vm_compute. repeat split; reflexivity. Qed.
 
 Example C14_example_pattern :
   match_bitpattern (of_Z 6 37) "1a_0? ba"%string
-  = Some (true, [("a"%char, [true; false]); ("b"%char, [false])]).
-Proof. vm_compute. reflexivity. Qed.
+  = Some (true, [("a"%char, [true; false]); ("b"%char, [false])]) /\
+  match_bitpattern_fm (of_Z 6 37) "1a_0? ba"%string [("b"%char, "bar"%string); ("a"%char, "foo"%string)]
+  = Some (true, [("foo"%string, [true; false]); ("bar"%string, [false])]) /\
+  match_bitpattern_fm (of_Z 6 37) "1a_0? ba"%string [("b"%char, "bar"%string)] = None.
+Proof. vm_compute. repeat split; reflexivity. Qed.
 
 Example C14_example_chop_struct :
   option_map (map to_Z) (chop (of_Z 6 45) [1; 3; 2]%nat) = Some [1; 3; 1] /\
